@@ -289,3 +289,66 @@ func VerifBind() {
 		}
 	}
 }
+
+// VerifDefaultPerCall: "omitted optional parameters take their declared default" on EVERY call:
+// a default that is a container (map / list) is what the declaration says each time, whatever an
+// earlier call did with the value it received; the same call expression evaluated twice and two
+// call expressions of the same function are covered, with one or two optional parameters.
+func VerifDefaultPerCall() {
+	mk := verifnd.Choice(3)
+	decl := func() any {
+		switch mk {
+		case 0:
+			return map[string]any{}
+		case 1:
+			return []any{int64(1)}
+		}
+		return map[string]any{"inner": []any{}}
+	}
+	params := []*Param{{Name: "a", Val: func() any { return int64(7) }}, {Name: "m", Val: decl}}
+	c1 := &ast.CallExpr{Name: "f"}
+	c2 := &ast.CallExpr{Name: "f"}
+	if verifnd.Bool() {
+		c1.Param = []*ast.Node{ast.WrapIntegerLiteral(&ast.IntegerLiteral{Val: 3})}
+	}
+	ctx := NewTask("verif.p", nil)
+	verifnd.Assert(CheckPassParam(ctx, c1, params) == nil && CheckPassParam(ctx, c2, params) == nil, "bindable-call-accepted")
+	pristine := func(v any, label string) {
+		switch x := v.(type) {
+		case map[string]any:
+			if mk == 0 {
+				verifnd.Assert(len(x) == 0, label)
+			} else {
+				in, _ := x["inner"].([]any)
+				verifnd.Assert(mk == 2 && len(x) == 1 && len(in) == 0, label)
+			}
+		case []any:
+			verifnd.Assert(mk == 1 && len(x) == 1 && x[0] == any(int64(1)), label)
+		default:
+			verifnd.Assert(false, label)
+		}
+	}
+	spoil := func(v any) {
+		switch x := v.(type) {
+		case map[string]any:
+			x["k"] = int64(1)
+			if in, ok := x["inner"].([]any); ok {
+				x["inner"] = append(in, "x")
+			}
+		case []any:
+			x[0] = "spoilt"
+		}
+	}
+	calls := []*ast.CallExpr{c1, c2, c1}
+	for n, c := range calls {
+		v, err := GetParam(ctx, c, params, 1)
+		verifnd.Assert(err == nil, "getter-no-error")
+		if err != nil {
+			return
+		}
+		_ = n
+		pristine(v, "omitted-optional-parameter-gets-the-declared-default-on-every-call")
+		spoil(v)
+	}
+	verifnd.Reach("three-calls")
+}
